@@ -446,6 +446,15 @@ impl VirtualSystem {
                 inode
             }
             Err(Errno::ENOENT) if flags.contains(OpenFlag::Create) => {
+                // A name with a trailing slash can only denote a directory,
+                // which open() does not create.
+                let bytes = path.as_unix_str().as_bytes();
+                if bytes.ends_with(b"/") {
+                    return Err(Errno::EISDIR);
+                }
+                if bytes.ends_with(b"/.") {
+                    return Err(Errno::ENOENT);
+                }
                 let mut inode = Inode::new([]);
                 inode.permissions = mode.difference(umask);
                 let inode = Rc::new(RefCell::new(inode));
